@@ -162,6 +162,35 @@ def run(ctx, col: Collector):
                           and norm(n.value) == val]
             col.check(stores_parent, 'C05-backptr', f'{ci.name}.note:sets-parent', f'{ci.name}.note setter sets note.parent = self',
                       f'{ci.name}.note setter does not set `{val}.parent = {sp[0]}`: the note does not point back to its owner', node=setter.node, file=file)
+            # ... on every path on which a Note was given: the store may be skipped only for None / a non-Note value, not by the truth value of the note
+            # (Note defines __bool__: a note with empty text is falsy but still needs its owner)
+            if stores_parent:
+                note_cls = idx.classes.get('pydbml._classes.note:Note')
+                falsy_notes = note_cls is not None and any(m in note_cls.methods for m in ('__bool__', '__len__'))
+                worst = None
+                for path in paths_of(setter, 1):
+                    if path[-1].kind == 'raise':
+                        continue
+                    has = any(ev.kind == 'stmt' and isinstance(ev.node, ast.Assign) and norm(ev.node.targets[0]) == f'{val}.parent' for ev in path)
+                    if has:
+                        continue
+                    lits = [c for ev in path if ev.kind == 'test' for c in conjuncts(term(ev.node, ev.outcome))]
+                    excused = ('none', val) in lits or any(l[0] == 'not' and isinstance(l[1], tuple) and l[1][0] == 'isinstance' and l[1][1] == val for l in lits)
+                    if excused:
+                        continue
+                    if ('not', ('truthy', val)) in lits and falsy_notes:
+                        worst = worst or ('bad', f'the back-pointer is skipped when `{val}` is falsy, and a Note with empty text is falsy (Note.__bool__): such a note keeps parent None')
+                    elif not lits:
+                        worst = worst or ('bad', 'a path through the setter never sets the back-pointer')
+                    else:
+                        worst = worst or ('unk', f'the back-pointer is skipped under {lits}, which this rule cannot relate to "no note was given"')
+                cons_ = f'{ci.name}.note:sets-parent-always'
+                if worst is None:
+                    col.ok('C05-backptr', cons_, 'every path that receives a Note sets its parent', node=setter.node, file=file)
+                elif worst[0] == 'bad':
+                    col.bad('C05-backptr', cons_, f'{ci.name}.note setter: {worst[1]}', node=setter.node, file=file)
+                else:
+                    col.unk('C05-backptr', cons_, f'{ci.name}.note setter: {worst[1]}', node=setter.node, file=file)
             col.check(bool(stores_val), 'C05-backptr', f'{ci.name}.note:stores-same-object', 'the setter keeps the very object it was given',
                       f'{ci.name}.note setter does not store `{val}` itself', node=setter.node, file=file)
             # __init__ goes through the setter
@@ -366,6 +395,27 @@ def run(ctx, col: Collector):
     # ---------------------------------------------------------------- C05-enum
     def enum_match():
         cb = idx.func(BP, 'ColumnBlueprint.build')
+        # whatever the search looks like: a (schema, name) key built for the type name may take its schema only from the type text or from the default-schema
+        # constant - a key that pairs the type name with some other schema (the table's, a parameter) makes a bare type name mean different enums in different places
+        locals_from_type = {norm(a.targets[0]) for a in ast.walk(cb.node) if isinstance(a, ast.Assign) and len(a.targets) == 1 and isinstance(a.targets[0], ast.Name)
+                            and any(norm(x) == 'self.type' for x in ast.walk(a.value))}
+        for a in ast.walk(cb.node):
+            if isinstance(a, ast.Assign) and isinstance(a.targets[0], ast.Tuple) and any(norm(x) == 'self.type' for x in ast.walk(a.value)):
+                locals_from_type |= {norm(t) for t in a.targets[0].elts}
+        params_ = {x.arg for x in cb.node.args.args[1:]} | {x.arg for x in cb.node.args.kwonlyargs}
+
+        def from_type(e):
+            return any(norm(x) == 'self.type' or (isinstance(x, ast.Name) and x.id in locals_from_type) for x in ast.walk(e))
+        for tup in [t for t in ast.walk(cb.node) if isinstance(t, ast.Tuple) and len(t.elts) == 2 and isinstance(t.ctx, ast.Load)]:
+            sch, nm_ = tup.elts
+            if from_type(nm_) and not from_type(sch) and not isinstance(sch, ast.Constant):
+                foreign = any((isinstance(x, ast.Name) and x.id in params_) or (isinstance(x, ast.Attribute) and norm(x).startswith('self.') and norm(x) != 'self.type')
+                              for x in ast.walk(sch))
+                if foreign:
+                    col.bad('C05-enum', 'ColumnBlueprint.build:schema-provenance', f'the type name is paired with the schema `{norm(sch)}` in the lookup key `{norm(tup)}`: '
+                            f'an unqualified type is resolved against a schema other than the default one, so the same bare type name binds to different enums '
+                            f'depending on where it is written (and a rendered `"name"` no longer reads back as the public enum)', node=tup, file=cb.file)
+                    return
         stores = [n for n in ast.walk(cb.node) if isinstance(n, ast.Assign) and norm(n.targets[0]) == 'self.type']
         if not stores:
             col.bad('C05-enum', 'ColumnBlueprint.build:links-enum', 'the column type is never replaced by an Enum object', node=cb.node, file=cb.file)
